@@ -45,38 +45,122 @@ def oracle(ranges, r):
 
 
 def premise(chk, P):
-    """r / .start only in comparisons; .range_type only == literal"""
+    """Soundness premise of the enumeration over order types: the separation r and the range starts influence the selection only
+    through comparisons (they may be copied to locals, passed on to other functions of the module and handed to the selected
+    sub-potential, but never enter arithmetic, indexing or conversions); markers only through ==/!= with the two literals.
+    A premise that cannot be established is an analysis error, not a violation: the enumeration then does not cover the code."""
     cls = P.cls(MOD, "Multi_Range_Potential_Form")
-    funcs = [cls.lookup("_range_search"), P.func(MOD, "_range_defn_cmp")]
+    entries = []
+    for c in [cls] + P.subclasses(cls, strict=True):
+        for nm in ("__call__", "deriv", "deriv2", "_range_search"):
+            fi = c.methods.get(nm)
+            if fi is not None:
+                entries.append((fi, frozenset(a.arg for a in fi.node.args.args[1:2])))
+    cmpf = P.resolve_name(P.module(MOD), "_range_defn_cmp")
+    if cmpf is not None and hasattr(cmpf, "node"):
+        entries.append((cmpf, frozenset()))
+    seen = set()
+    work = list(entries)
     n = 0
-    for fi in funcs:
+    while work:
+        fi, tainted0 = work.pop()
+        if (fi.fq, tainted0) in seen:
+            continue
+        seen.add((fi.fq, tainted0))
         parents = {}
         for node in ast.walk(fi.node):
             for ch in ast.iter_child_nodes(node):
                 parents[ch] = node
+        tainted = set(tainted0)
+
+        def is_t(e):
+            """expression carries r / a start (outside comparisons)"""
+            if isinstance(e, ast.Name):
+                return e.id in tainted
+            if isinstance(e, ast.Attribute):
+                return e.attr == "start"
+            if isinstance(e, ast.IfExp):
+                return is_t(e.body) or is_t(e.orelse)
+            return False
+        changed = True
+        while changed:
+            changed = False
+            for node in ast.walk(fi.node):
+                if isinstance(node, ast.Assign) and is_t(node.value):
+                    for t in node.targets:
+                        if isinstance(t, ast.Name) and t.id not in tainted:
+                            tainted.add(t.id)
+                            changed = True
         for node in ast.walk(fi.node):
-            bad = None
-            if isinstance(node, ast.Name) and node.id == "r" and isinstance(node.ctx, ast.Load):
-                if not isinstance(parents.get(node), ast.Compare):
-                    bad = "separation r used outside a comparison"
-                kind = "r"
-            elif isinstance(node, ast.Attribute) and node.attr == "start":
-                if not isinstance(parents.get(node), ast.Compare):
-                    bad = "range start used outside a comparison"
+            kind = None
+            if isinstance(node, ast.Name) and node.id in tainted and isinstance(node.ctx, ast.Load):
+                kind = "r" if node.id in tainted0 else node.id
+            elif isinstance(node, ast.Attribute) and node.attr == "start" and isinstance(node.ctx, ast.Load):
                 kind = ".start"
-            elif isinstance(node, ast.Attribute) and node.attr == "range_type":
+            elif isinstance(node, ast.Attribute) and node.attr == "range_type" and isinstance(node.ctx, ast.Load):
                 p = parents.get(node)
                 ok = isinstance(p, ast.Compare) and all(isinstance(o, (ast.Eq, ast.NotEq)) for o in p.ops) and \
                     all(isinstance(c, ast.Constant) and c.value in (">", ">=") for c in ([p.left] + p.comparators) if c is not node)
                 if not ok:
-                    bad = "range_type used other than in ==/!= with the literals '>' and '>='"
-                kind = ".range_type"
+                    raise AnalysisError("premise: %s line %d uses range_type other than in ==/!= with the literals '>' and '>='"
+                                        % (fi.fq, node.lineno))
+                n += 1
+                continue
             else:
                 continue
+            # climb through value-preserving wrappers
+            cur, p = node, parents.get(node)
+            while isinstance(p, ast.IfExp) and cur is not p.test:
+                cur, p = p, parents.get(p)
+            ok = False
+            if isinstance(p, ast.Compare):
+                ok = True
+            elif isinstance(p, (ast.Assign, ast.AnnAssign)) and p.value is cur:
+                ok = True
+            elif isinstance(p, ast.Return):
+                ok = kind == ".start" and False
+            elif isinstance(p, ast.keyword):
+                p = parents.get(p)
+            if isinstance(p, ast.Call) and (cur in p.args or any(k.value is cur for k in p.keywords)):
+                f = p.func
+                callee = None
+                if isinstance(f, ast.Attribute) and isinstance(f.value, ast.Name) and f.value.id in ("self", "cls") and fi.cls is not None:
+                    callee = fi.cls.lookup(f.attr)
+                    for sub in P.subclasses(fi.cls, strict=True):
+                        o = sub.methods.get(f.attr)
+                        if o is not None and o is not callee:
+                            idx0 = p.args.index(cur) if cur in p.args else None
+                            if idx0 is not None:
+                                work.append((o, frozenset([o.node.args.args[idx0 + 1].arg])))
+                elif isinstance(f, ast.Name):
+                    r_ = P.resolve_name(fi.module, f.id)
+                    callee = r_ if hasattr(r_, "node") and isinstance(getattr(r_, "node", None), ast.FunctionDef) else None
+                if callee is not None:
+                    idx0 = p.args.index(cur) if cur in p.args else None
+                    params = [a.arg for a in callee.node.args.args]
+                    off = 1 if callee.cls is not None else 0
+                    if idx0 is not None and idx0 + off < len(params):
+                        work.append((callee, frozenset([params[idx0 + off]])))
+                        ok = True
+                    else:
+                        kw = next((k.arg for k in p.keywords if k.value is cur), None)
+                        if kw in params:
+                            work.append((callee, frozenset([kw])))
+                            ok = True
+                elif isinstance(f, ast.Attribute) and kind != ".start" and not (isinstance(f.value, ast.Name) and f.value.id in ("math", "np", "numpy")):
+                    ok = True      # r handed to the selected sub-potential (rt.potential_form(r), rt.deriv(r), getter(rt)(r))
+                elif isinstance(f, ast.Call) and kind != ".start":
+                    ok = True
+                elif isinstance(f, ast.Name) and kind != ".start" and f.id in tainted | {a.arg for a in fi.node.args.args}:
+                    ok = True      # a callable parameter / local applied to r
+            if not ok:
+                raise AnalysisError("premise: %s line %d: %s is used outside a comparison (%s) - the enumeration over order types "
+                                    "does not cover this code" % (fi.fq, node.lineno, kind, type(parents.get(node)).__name__))
             n += 1
-            chk.ob("C08.P", "%s: %s at line offset %d is an operand of a comparison only" % (fi.qualname, kind, node.lineno - fi.node.lineno),
-                   bad is None, site=fi.site(node), found=bad, expect="comparison operand",
-                   key="C08.P|%s|%s" % (fi.qualname, kind))
+        chk.ob("C08.P", "%s: r / range starts reach the selection only through comparisons (may be copied, passed on, or handed to the "
+                        "selected sub-potential)" % fi.qualname, True, site=fi.site(), key="C08.P|%s" % fi.qualname)
+    if n < 10:
+        raise AnalysisError("premise: only %d uses of r / start / range_type found (10 confirmed by reading)" % n)
     return n
 
 
@@ -98,7 +182,7 @@ def run(chk):
     thorough = chk.tier == "thorough"
     kmax = 5 if thorough else 3
     perm_max = 4 if thorough else 3
-    chk.rule("C08.P", "premise: r, starts and markers are touched only through comparisons", 10)
+    chk.rule("C08.P", "premise: r, starts and markers are touched only through comparisons", 4)
     chk.rule("C08.O1", "selection = range with the greatest start containing r (inclusive at r = s), None below the first", kmax)
     chk.rule("C08.O2", "the result does not depend on the listing order (constructor sorts through the comparator)", perm_max - 1)
     chk.rule("C08.O3", "value, deriv and deriv2 come from the selected range; default_value / 0.0 when none", 2)
